@@ -77,6 +77,12 @@ def ctor_case(case):
         elif op == 'V': a.V = b; r = a
         elif op == 'real': r = a.real()
         elif op == 'imag': r = a.imag()
+        elif op in ('exp', 'log', 'sqrt', 'sin', 'cos'):
+            import cvxopt
+            r = getattr(cvxopt, op)(a)
+        elif op in ('mulf', 'divf', 'maxf', 'minf'):
+            import cvxopt
+            r = getattr(cvxopt, op[:-1])(*args)
         elif op == 'fromfile':
             r = None
         else: raise ValueError(op)
